@@ -1428,6 +1428,34 @@ fn c02(cases: &mut u64) -> Option<String> {
             }
         }
     }
+    // fewer than 65536 tokens per side but more than 65535 distinct tokens in total (the builder numbers the distinct
+    // tokens of BOTH sides with one integer type; round-5 seeds C04-13 / C17-13)
+    {
+        let o: Vec<u32> = (0..65_000u32).collect();
+        let n: Vec<u32> = (0..65_000u32).map(|i| if i < 600 { 100_000 + i } else { i }).collect();
+        let os: Vec<String> = o.iter().map(|x| format!("t{}", x)).collect();
+        let ns: Vec<String> = n.iter().map(|x| format!("t{}", x)).collect();
+        let ov: Vec<&str> = os.iter().map(|x| x.as_str()).collect();
+        let nv: Vec<&str> = ns.iter().map(|x| x.as_str()).collect();
+        for &alg in &ALGS {
+            *cases += 1;
+            let ctx = format!("C02 alg={:?} text diff of 65000 distinct tokens with the first 600 rewritten", alg);
+            let r = guard(|| {
+                let mut cfg = TextDiff::configure();
+                cfg.algorithm(alg);
+                let d = cfg.diff_slices(&ov, &nv);
+                d.ops().to_vec()
+            });
+            match r {
+                Err(p) => return Some(format!("{} TextDiffConfig::diff_slices: {}", ctx, p)),
+                Ok(ops) => {
+                    if let Err(e) = c02_one(&format!("{} TextDiffConfig::diff_slices(..).ops()", ctx), &ops, &o, 0..o.len(), &n, 0..n.len()) {
+                        return Some(e.chars().take(600).collect());
+                    }
+                }
+            }
+        }
+    }
     None
 }
 
@@ -2698,7 +2726,7 @@ fn main() {
         "C11clock" => (c07_clock(&mut cases, true), "virtual clock (cfg similar_verif, so the K1 hook is on too): alphabet {0,1,2} len 0..=5 x every deadline check k, plus 6 shapes of 120 items x sampled k: the ops of capture_diff_deadline carry exact indices on both sides (C11) under every expiry schedule"),
         "C11text" => (c11_text(&mut cases), "crate built with --cfg similar_verif (K1 repair hook on): TextDiff line diffs of all token sequences over {0,1,2} len 0..=4 and of 21 shapes of 101..260 tokens (integer-mapping path): exact indices on both sides, group extents from first/last op"),
         "C08" => (c08(&mut cases), "alphabet {0,1,2}, len 0..=4, 6 hook stacks x 2 hook kinds x every failing call index x deadline {none, expired}"),
-        "C02" => (c02(&mut cases), "alphabet {0,1,2}, len 0..=5, deadline none/expired, slices + sub-ranges + TextDiff chars; 15 text diffs of 101..260 tokens through the integer-mapping path"),
+        "C02" => (c02(&mut cases), "alphabet {0,1,2}, len 0..=5, deadline none/expired, slices + sub-ranges + TextDiff chars; 15 text diffs of 101..260 tokens through the integer-mapping path; one of 65000 distinct tokens with 600 rewritten (more distinct tokens than a 16-bit id)"),
         "C03" => (c03(&mut cases), "alphabet {0,1,2} len 0..=6 and alphabet {0,1} len 0..=8, Myers + LCS, raw + captured; 4 pairs of 400..900 items with edit distances in the hundreds"),
         "C09" => (c09(&mut cases), "alphabet {0,1,2}, len 0..=6, deadline none/expired; TextDiff line diffs of 101..260 lines"),
         "C10" => (c10(&mut cases), "alphabet {0,1}, len 0..=3, all valid scripts x all carried indices x 3 adapter stacks"),
